@@ -338,7 +338,7 @@ func wfaultSweep(p *wfaultParams, st *Stats, run int, ti int, cfg Config, r *Rng
 		}
 		doc := append(append([]byte(strings.Repeat("x", n)), "\n\n"...), T...)
 		docs := [][]byte{doc}
-		for _, stack := range []string{"W1", "W2:4096", "W2p:4096", pick(r, []string{"W1b", "W1s", "W1f"})} {
+		for _, stack := range []string{"W1", "W2:4096", "W2p:4096", pick(r, []string{"W1b", "W1s", "W1f", "W1r"})} {
 			base := Op{Kind: pick(r, []string{"Convert", "ParseRender"}), Doc: 0, Stack: stack}
 			R, ok := wfaultRef(cfg, docs, base)
 			if !ok {
@@ -574,13 +574,13 @@ func wfaultWorker(p *wfaultParams, st *Stats) {
 			if r.Split("render-child").Chance(1, 3) || p.tier == "thorough" {
 				paths = append(paths, "RenderChild")
 			}
-			stacks := []string{"W1", fmt.Sprintf("W2:%d", pick(r, w2Sizes)), "W3", pick(r, []string{"W1f", "W1s", "W1b", fmt.Sprintf("W2p:%d", pick(r, w2Sizes))})}
+			stacks := []string{"W1", fmt.Sprintf("W2:%d", pick(r, w2Sizes)), "W3", pick(r, []string{"W1f", "W1s", "W1b", "W1r", fmt.Sprintf("W2p:%d", pick(r, w2Sizes))})}
 			if cfg.ErrRenderer {
 				// destinations that do not remember errors: judged where goldmark can see the failure
 				stacks = append(stacks, pick(r.Split("non-sticky"), []string{"W4", "W4", "W5:16", "W5:64", "W5d:16", "W5p:16", "W5p:64"}))
 			}
 			if p.tier == "thorough" {
-				stacks = []string{"W1", "W2:16", "W2:17", "W2:64", "W2:4096", "W2:65536", "W3", "W1f", "W1s", "W1b", "W2p:17", "W2p:64", "W2p:4096", "W4", "W5:16", "W5:4096", "W5d:64", "W5p:16", "W5p:4096"}
+				stacks = []string{"W1", "W2:16", "W2:17", "W2:64", "W2:4096", "W2:65536", "W3", "W1f", "W1s", "W1b", "W1r", "W2p:17", "W2p:64", "W2p:4096", "W4", "W5:16", "W5:4096", "W5d:64", "W5p:16", "W5p:4096"}
 			}
 			exPi, exSi := r.Intn(len(paths)), r.Intn(len(stacks))
 			for pi, kind := range paths {
